@@ -14,6 +14,8 @@ for f in os.listdir(os.path.join(HERE, "rules")) + ["../sa/layout.py", "../sa/ct
     p = os.path.join(HERE, "rules", f)
     if p.endswith(".py") and os.path.exists(p):
         names |= set(re.findall(r"[\"'.:]((?:_[a-z][a-z0-9_]+))[\"']", open(p).read()))
+# ... and every private function named by a known finding (its key must survive a rename)
+names |= set(re.findall(r"\.(_[a-z][a-z0-9_]+)", open(os.path.join(HERE, "known_findings.json")).read()))
 out = {}
 for m in repo.modules.values():
     for ci in m.classes.values():
